@@ -450,6 +450,18 @@ def py_rules(res):
     if not isinstance(init, ast.FunctionDef):
         raise AnalysisError("anchor vanished: _SetIteration.__init__")
     sorts = [c for c in ast.walk(init) if isinstance(c, ast.Call) and pyfront.unparse(c.func) == "sorted"]
+    # the adaptation factored into a module-level function: the call is the sort site,
+    # the function's body belongs to the scope that is searched for the de-duplication
+    mod_funcs = pyfront.functions(tree)
+    helper_scopes = []
+    if not sorts:
+        for c in ast.walk(init):
+            if isinstance(c, ast.Call) and isinstance(c.func, ast.Name) and c.func.id in mod_funcs:
+                hf = mod_funcs[c.func.id]
+                inner = [x for x in ast.walk(hf) if isinstance(x, ast.Call) and pyfront.unparse(x.func) == "sorted"]
+                if inner:
+                    sorts.append(c)
+                    helper_scopes.append((hf, inner[0]))
     res.count("PY-OPERAND-ADAPT", max(1, len(sorts)))
     if not sorts:
         res.findings.add(dict(rule="OPERAND-ADAPT", function="_SetIteration.__init__", file=REL,
@@ -461,7 +473,15 @@ def py_rules(res):
         exempt = []
         for iff in ast.walk(init):
             if isinstance(iff, ast.If) and any(x is sorts[0] for b in iff.body for x in ast.walk(b)):
-                for c in ast.walk(iff.test):
+                test = iff.test
+                # a local that names the test (`presorted = isinstance(..)` / `if not presorted:`)
+                inner_t = test.operand if isinstance(test, ast.UnaryOp) and isinstance(test.op, ast.Not) else test
+                if isinstance(inner_t, ast.Name):
+                    ds = [a.value for a in ast.walk(init) if isinstance(a, ast.Assign) and len(a.targets) == 1
+                          and isinstance(a.targets[0], ast.Name) and a.targets[0].id == inner_t.id]
+                    if len(ds) == 1:
+                        test = ds[0]
+                for c in ast.walk(test):
                     if isinstance(c, ast.Call) and pyfront.unparse(c.func) == "isinstance" and len(c.args) == 2:
                         t = c.args[1]
                         exempt += [pyfront.unparse(x) for x in (t.elts if isinstance(t, ast.Tuple) else [t])]
@@ -474,10 +494,11 @@ def py_rules(res):
                            "in strictly increasing key order; %s is not one "
                            "of them (e.g. the lazy values() view of a tree is "
                            "a _TreeItems and is unsorted with duplicates)" % tname, path=[]))
-        arg = pyfront.unparse(sorts[0].args[0]) if sorts[0].args else ""
+        real_sort = helper_scopes[0][1] if helper_scopes else sorts[0]
+        arg = pyfront.unparse(real_sort.args[0]) if real_sort.args else ""
         dedupe = "set(" in arg or "fromkeys" in arg or any(
             isinstance(c, ast.Call) and pyfront.unparse(c.func) in ("set", "dict.fromkeys")
-            for c in ast.walk(init))
+            for scope in [init] + [h for h, _ in helper_scopes] for c in ast.walk(scope))
         def _eq_iter(fn):
             for lp in ast.walk(fn):
                 if isinstance(lp, (ast.For, ast.While, ast.ListComp, ast.GeneratorExp)):
@@ -486,7 +507,8 @@ def py_rules(res):
                             return True
             return False
         adv = pyfront.class_members(si).get("advance")
-        if _eq_iter(init) or (isinstance(adv, ast.FunctionDef) and _eq_iter(adv)):
+        if _eq_iter(init) or (isinstance(adv, ast.FunctionDef) and _eq_iter(adv)) or any(
+                _eq_iter(h) for h, _ in helper_scopes):
             dedupe = True
         if not dedupe:
             res.findings.add(dict(
